@@ -54,6 +54,21 @@ def dfloor(x):
     return int(x.to_integral_value(rounding=ROUND_FLOOR))
 
 
+def mant15(y):
+    """positive decimal y as [m, e] with y ~ m * 2^e and 2^14 <= m < 2^15 (floating representation for the 32-bit spec)"""
+    y = D(y)
+    if y <= 0:
+        return [0, 0]
+    e = 0
+    while y >= 32768:
+        y /= 2
+        e += 1
+    while y < 16384:
+        y *= 2
+        e -= 1
+    return [int(y), e]
+
+
 def fxr(x, S):
     v = D(x) * S
     if v >= BIG:
@@ -157,7 +172,7 @@ def tb_consts(algo, nu, rho, rounds=None, c=None, delta=None, bound=None, H=48, 
                     if bb >= Decimal(15) * 10 ** 8:
                         ok = False
                     b3.append(int(bb.to_integral_value(rounding=ROUND_HALF_EVEN)))
-                    tauy.append([min(1500000000, int(v * dpow(rho, -2 * h) / (nu * nu) * S)) if v * dpow(rho, -2 * h) / (nu * nu) * S < 1500000000 else 1500000000 for h in range(H + 1)])
+                    tauy.append([mant15(v * dpow(rho, -2 * h) / (nu * nu) * S) for h in range(H + 1)])
                 row = [0]
                 for h in range(1, H + 1):
                     t = v * dpow(rho, -2 * h) / (nu * nu)
